@@ -908,7 +908,9 @@ def gen_cases(rng: random.Random, nlang: int, nexpr: int, depth: int):
 # ill-typed result, with no exception): a parameter that occurs twice in a
 # definition is bound to ONE abstraction object, which the first occurrence
 # reduces in place.  Without a hook the heap history cannot be observed, so the
-# signature is given to such failures on inputs of exactly that shape.
+# signature is given to those three symptoms on inputs of exactly that shape
+# (never to a composite operator or a reducible application left behind, nor
+# to a second expansion that changes something: the defect does not cause those).
 SHARE_SIG = "C15:abstraction-bound-to-a-parameter-used-twice-is-reduced-in-place"
 
 
@@ -975,7 +977,7 @@ class Runner:
                 self.dist["definitions_dropped_by_validate"] += 1
                 if sk:
                     self.dist[f"dropped:{sk}"] = self.dist.get(f"dropped:{sk}", 0) + 1
-            except BaseException as ex:   # noqa: the defect surfacing inside validate()
+            except Exception as ex:   # noqa: the defect surfacing inside validate()
                 valid[i] = False
                 sig, where = crash_signature(ex)
                 self.viol(f"validate_{li}_{i}", {
@@ -995,7 +997,7 @@ class Runner:
             inferred.unify(declared, subtype=True)
         except T.TypingError as ex:
             return f"{type(ex).__name__}: {ex}"
-        except BaseException:   # noqa: crashes are reported where they occur in use
+        except Exception:   # noqa: crashes are reported where they occur in use
             return None
         return None
 
@@ -1034,7 +1036,7 @@ class Runner:
         except (E.ApplicationError, T.TypingError):
             self.dist["rejected_at_construction"] += 1
             return None
-        except BaseException as ex:   # noqa
+        except Exception as ex:   # noqa
             sig, where = crash_signature(ex)
             self.viol(f"construct_{li}_{ei}", dict(payload, kind="oracle",
                 what="building the expression crashed", exception=type(ex).__name__, where=where),
@@ -1058,7 +1060,7 @@ class Runner:
         ob = {"raised": None, "share": share}
         try:
             p = e.primitive()
-        except BaseException as ex:   # noqa
+        except Exception as ex:   # noqa
             sig, where = crash_signature(ex)
             self.dist["raised_while_expanding"] += 1
             ob["raised"] = (type(ex).__name__, sig)
@@ -1088,7 +1090,7 @@ class Runner:
         ssig = SHARE_SIG if share else None
         if bad:
             self.viol(f"notnormal_{li}_{ei}", dict(payload, kind="oracle", what="; ".join(sorted(set(bad)))),
-                has_input=True, signature=ssig)
+                has_input=True)
         # the expansion is itself well-typed at every application
         bad = []
         impl.ill_typed_nodes(p, bad, self.dist)
@@ -1108,12 +1110,12 @@ class Runner:
             after2 = impl.snap(p2.type)
             if enc2 != enc:
                 self.viol(f"idem_{li}_{ei}", dict(payload, kind="oracle", second=enc2,
-                    what="expanding the expansion again changes the expression"), has_input=True, signature=ssig)
+                    what="expanding the expansion again changes the expression"), has_input=True)
             elif not (impl.more_specific(after2, after)[0] and impl.more_specific(after, after2)[0]):
                 self.viol(f"idemtype_{li}_{ei}", dict(payload, kind="oracle",
                     second_type=impl.snap_str(after2),
-                    what="expanding the expansion again changes its type"), has_input=True, signature=ssig)
-        except BaseException as ex:   # noqa
+                    what="expanding the expansion again changes its type"), has_input=True)
+        except Exception as ex:   # noqa
             sig, where = crash_signature(ex)
             self.viol(f"idemraise_{li}_{ei}", dict(payload, kind="oracle",
                 what="expanding the expansion again raised", exception=type(ex).__name__, where=where),
@@ -1128,7 +1130,13 @@ class Runner:
         payload = {"language": lang.to_json(), "expr": t, "expr_text": term_str(lang, t),
                    "model": m_enc, "encoding": "prefix code: 0 o = operator, 1 s = source, 2 i = variable (de Bruijn), "
                    "3 f x = application, 4 b = abstraction; model results start with 0, [9] = fuel exhausted"}
-        if m_enc == [9] or m_lo == 2 or m_idem == 2:
+        if m_lo == 2:
+            # only the call-by-name evaluator ran out of fuel (it nests much
+            # deeper than primitive on towers of duplicating combinators):
+            # nothing to compare it with, nothing wrong with the code
+            self.dist["model_lo_out_of_fuel"] = self.dist.get("model_lo_out_of_fuel", 0) + 1
+            m_lo = 3
+        if m_enc == [9] or m_idem == 2:
             # the model ran out of fuel: a limit of the harness, not of the code
             self.dis += 1
             self.viol(f"fuel_{li}_{ei}", dict(payload, kind="harness", what="model evaluation ran out of fuel"),
@@ -1221,7 +1229,7 @@ def main(tier: str, seed: int, replay: str | None = None) -> int:
     if tier == "quick":
         cases = gen_cases(rng, 40, 25, 4)
     else:
-        cases = gen_cases(rng, 900, 40, 4)
+        cases = gen_cases(rng, 700, 40, 4)
     run = Runner(rep)
     run.run(cases, tier)
     rep.coverage.update({
